@@ -718,6 +718,8 @@ def c01(ctx: Ctx) -> None:
                         and isinstance(lf.func.value, ast.Name) and lf.func.value.id == r.cache and len(lf.args) == 1:
                     return False   # a defaulted probe may return the default
                 return isinstance(lf, ast.Await) and any(c.ast is lf for c in r.CALL)
+            from ..paths import track_names
+            track_names(g, [x.id for x in ast.walk(v) if isinstance(x, ast.Name) and g.scope.binding_scope(x.id) is g.scope])
             envs = envs_at(g, n)
             ok = bool(envs) and all(
                 (lambda ls: bool(ls) and all(good(x) for x in ls))(leaves(g, n, v, env=env)) for env in envs)
@@ -839,9 +841,14 @@ def c05(ctx: Ctx) -> None:
         # the marker is removed, or found to be someone else's, or found to be gone already
         pres = presence_branches(r)
         gone_edges = {(b.id, lab) for b, lab in pres}
+        # ... in the try/except form: a read of TABLE[key] that raises KeyError has found the entry gone
+        # (only when the KeyError is caught: one that escapes replaces the caller's outcome - C06)
+        gone_ids = {id(e_) for n_ in g.nodes if n_.kind == 'load_sub' and r._base(n_) == r.table
+                    and norm(n_.ast.slice) in r.key_exprs and len(r.key_exprs) == 1
+                    for e_ in g.succ[n_.id] if e_.label == 'exc' and e_.dst.kind == 'except' and 'KeyError' in (e_.classes or ())}
         via = r.UNMARK + [b for b, _ in own]
         w = must_pass(g, [], exits, via, start_edges=starts, init_envs=envs,
-                      edge_ok=lambda e: feasible(e) and (e.src.id, e.label) not in gone_edges)
+                      edge_ok=lambda e: feasible(e) and (e.src.id, e.label) not in gone_edges and id(e) not in gone_ids)
         ok = w is None and bool(r.UNMARK)
         # each ownership edge must lead to an UNMARK
         for b, pol in own:
@@ -1274,9 +1281,21 @@ def c14(ctx: Ctx) -> None:
             ctx.undecided('C14-R4', inst, iw, why)
     # write-effect set of the wrapper: only CACHE and TABLE are stored to
     stores_to = set()
+    res_names = {n.meta['name'] for n in g.nodes if n.kind == 'store_name' and isinstance(n.meta.get('value'), ast.Await)
+                 and any(c.ast is n.meta['value'] for c in r.CALL)}
     for n in g.nodes:
         if n.kind in ('store_sub', 'del_sub'):
             b = n.ast.value  # type: ignore[union-attr]
+            if n.kind == 'store_sub' and isinstance(n.ast.slice, ast.Constant):
+                # a slot with a constant name (a statistics counter, a debug field) that does not receive the result
+                # or anything derived from the arguments is not a second result store
+                st_ = n.meta.get('stmt')
+                vexpr = st_.value if isinstance(st_, (ast.Assign, ast.AugAssign, ast.AnnAssign)) else n.meta.get('value')
+                tainted = vexpr is None or any(
+                    isinstance(x, ast.Await) or (isinstance(x, ast.Name) and (x.id in res_names or x.id in w.params or norm(x) in r.key_exprs))
+                    for x in ast.walk(resolve(g, n, vexpr)))
+                if not tainted:
+                    continue
             stores_to.add(norm(b))
         if n.kind == 'store_attr':
             stores_to.add(norm(n.ast))
